@@ -165,11 +165,131 @@ func c16Doc(class int) (string, string) {
 	return fmt.Sprintf(`{"name":"配置","retries":3,"routes":[%s]}`, strings.Join(items, ",")), []string{"large", "medium", "small"}[class]
 }
 
+// c16Results: calls of built-in methods / properties whose RESULT a program may go on to
+// change in place (bound with 得到, which does not copy). kind selects the mutators that apply.
+var c16Results = [][3]string{
+	{"以【1，2，3】（寻找：9）", "num", "array.寻找-miss"},
+	{"以【1，2，3】（寻找：2）", "num", "array.寻找-hit"},
+	{"以【1，2，3】（包含：9）", "any", "array.包含"},
+	{"以【3，1，2】（左移）", "num", "array.左移"},
+	{"以【3，1，2】（右移）", "num", "array.右移"},
+	{"以【】（左移）", "any", "array.左移-empty"},
+	{"以【1，2】（合并：【3】）", "arr", "array.合并"},
+	{"以【1，2】（添加：3）", "arr", "array.添加"},
+	{"以【1，2】（后增：3）", "arr", "array.后增"},
+	{"以【1，2】（前增：3）", "arr", "array.前增"},
+	{"以【1，2】（交换：0、1）", "arr", "array.交换"},
+	{"以【“a”，“b”】（拼接：“,”）", "txt", "array.拼接"},
+	{"以“甲乙丙”（匹配：“丁”）", "any", "text.匹配"},
+	{"以“甲乙丙”（匹配开头：“甲”）", "any", "text.匹配开头"},
+	{"以“甲乙丙”（替换：“乙”、“丁”）", "txt", "text.替换"},
+	{"以“a,b”（分隔：“,”）", "arr", "text.分隔"},
+	{"以“甲乙丙”（取样：0、1）", "txt", "text.取样"},
+	{"以“ 甲 ”（去除空格）", "txt", "text.去除空格"},
+	{"以“ab”（转大写-英文）", "txt", "text.转大写"},
+	{"以“12”（转换数值）", "num", "text.转换数值"},
+	{"以“甲”（拼接：“乙”）", "txt", "text.拼接"},
+	{"以“{#1}”（格式化：1）", "txt", "text.格式化"},
+	{"以【“k” = 1】（读取：“无”）", "any", "dict.读取-miss"},
+	{"以【“k” = 1】（读取：“k”）", "num", "dict.读取-hit"},
+	{"以【“k” = 1】（写入：“j”、2）", "any", "dict.写入"},
+	{"以【“k” = 1】（移除：“k”）", "any", "dict.移除"},
+	{"以5（加：1）", "num", "number.加"},
+	{"以5（减：1）", "num", "number.减"},
+	{"以5（乘：2）", "num", "number.乘"},
+	{"以5（除：2）", "num", "number.除"},
+	{"以5.5（向下取整）", "num", "number.向下取整"},
+	{"以5.5（向上取整）", "num", "number.向上取整"},
+}
+
+var c16ResultMutators = map[string][]string{
+	"num": {"自增：1", "自减：2", "自增：0.5"},
+	"arr": {"添加：9", "左移", "前增：9", "交换：0、1"},
+	"txt": {"转换数值", "拼接：“x”"},
+	"any": {"自增：1", "添加：9", "写入：“k”、5"},
+}
+
+func c16ResultPolluter(ei, mi int) *execSpec {
+	e := c16Results[ei]
+	ms := c16ResultMutators[e[1]]
+	m := ms[mi%len(ms)]
+	guard := "\n\n拦截异常：\n\t输出“挡住”\n"
+	return &execSpec{ID: "method-result:" + e[2] + "." + strings.SplitN(m, "：", 2)[0], Mode: "script",
+		Main: fmt.Sprintf("%s，得到果\n（显示：“先”、果）\n以果（%s）\n（显示：“后”、果）\n输出“污染者结束”%s", e[0], m, guard)}
+}
+
+// c16ResultBatch is one program that does what c16ResultPolluter does for EVERY entry of the
+// table, each in a function of its own with its own handler.
+func c16ResultBatch(mi int) *execSpec {
+	var sb strings.Builder
+	for i, e := range c16Results {
+		ms := c16ResultMutators[e[1]]
+		fmt.Fprintf(&sb, "如何试%d？\n\t%s，得到果\n\t（显示：“先%d”、果）\n\t以果（%s）\n\t输出“好”\n\n\t拦截异常：\n\t\t输出“挡”\n\n", i, e[0], i, ms[mi%len(ms)])
+	}
+	for i := range c16Results {
+		fmt.Fprintf(&sb, "（试%d）\n", i)
+	}
+	sb.WriteString("输出“污染者结束”\n")
+	return &execSpec{ID: fmt.Sprintf("method-results:all/%d", mi), Mode: "script", Main: sb.String()}
+}
+
+// c16Related picks the victim of the battery that looks at what polluter p touches.
+func c16Related(t *zsim.Tape, p *execSpec) *execSpec {
+	gs := c16Globals()
+	v := func(ds ...uint32) *execSpec { return c16Victim(zsim.ReplayTape(ds)) }
+	idxOf := func(g string) uint32 {
+		for i, x := range gs {
+			if x == g {
+				return uint32(i)
+			}
+		}
+		return 0
+	}
+	id := p.ID
+	switch {
+	case strings.HasPrefix(id, "libobj:"):
+		return v(10)
+	case strings.HasPrefix(id, "json-doc-patched:"):
+		return v(12, map[string]uint32{"large": 0, "medium": 1, "small": 2}[strings.TrimPrefix(id, "json-doc-patched:")])
+	case strings.HasPrefix(id, "ctor") && strings.Contains(id, "探针"):
+		return v(9)
+	case strings.HasPrefix(id, "ctor"):
+		if t.Draw(2) == 0 {
+			return v(8)
+		}
+		return v(0, idxOf(id[strings.Index(id, ":")+1:]))
+	case strings.HasPrefix(id, "mutate:数值"), id == "varinput-mutates":
+		return v([]uint32{1, 11, 0}[t.Draw(3)], idxOf("数值"))
+	case strings.HasPrefix(id, "mutate:"), strings.HasPrefix(id, "setprop:"):
+		g := strings.TrimPrefix(strings.TrimPrefix(id, "mutate:"), "setprop:")
+		if i := strings.Index(g, "."); i >= 0 {
+			g = g[:i]
+		}
+		return v(0, idxOf(g))
+	case strings.HasPrefix(id, "other-project"), strings.HasPrefix(id, "define:"), strings.HasPrefix(id, "declare:"):
+		return v([]uint32{5, 7, 6}[t.Draw(3)], uint32(t.Draw(3)))
+	case strings.HasPrefix(id, "import:"), id == "lib-call-fails":
+		return v([]uint32{4, 9, 10}[t.Draw(3)])
+	case id == "dies-mid-call":
+		return v([]uint32{6, 2, 3}[t.Draw(3)])
+	case strings.HasPrefix(id, "method-result"):
+		// nothing in the battery looks at method results: the program itself, run again, does
+		again := *p
+		again.ID = "again:" + p.ID
+		return &again
+	}
+	return nil
+}
+
 // polluter draws one program that tries to leave something behind.
 func c16Polluter(t *zsim.Tape) *execSpec {
 	gs := c16Globals()
 	guard := "\n\n拦截异常：\n\t输出“挡住”\n"
-	switch t.Draw(16) {
+	switch t.Draw(18) {
+	case 17: // the result of a built-in method, bound without a copy and changed in place
+		return c16ResultPolluter(t.Draw(len(c16Results)), t.Draw(4))
+	case 16: // … the same for every method of the table in one program
+		return c16ResultBatch(t.Draw(4))
 	case 15: // a parsed document bound without a copy (得到) and patched in place
 		doc, size := c16Doc(t.Draw(3))
 		return &execSpec{ID: "json-doc-patched:" + size, Mode: "script", Main: "导入《@JSON》\n\n（解析JSON：“" + doc + "”），得到配置\n以配置（写入：“已处理”、“是”）\n配置 # “retries” = 42\n输出“污染者结束”" + guard}
@@ -311,6 +431,14 @@ func c16EnumPolluters() []*execSpec {
 		}
 		out = append(out, &execSpec{ID: "ctor-with-declarations:" + c, Mode: "script", Main: imp + fmt.Sprintf("如何新建%s？\n\t输入文\n\t如何加标记？\n\t\t输出“标”\n\t定义临时类：\n\t\t其名 = “t”\n\t令记 = 文\n\n令错 = （新建%s：“x”）\n输出“污染者结束”%s", c, c, guard)})
 	}
+	for ei := range c16Results {
+		for mi := range c16ResultMutators[c16Results[ei][1]] {
+			out = append(out, c16ResultPolluter(ei, mi))
+		}
+	}
+	for mi := 0; mi < 4; mi++ {
+		out = append(out, c16ResultBatch(mi))
+	}
 	for class := 0; class < 3; class++ {
 		doc, size := c16Doc(class)
 		out = append(out, &execSpec{ID: "json-doc-patched:" + size, Mode: "script", Main: "导入《@JSON》\n\n（解析JSON：“" + doc + "”），得到配置\n以配置（写入：“已处理”、“是”）\n配置 # “retries” = 42\n输出“污染者结束”" + guard})
@@ -332,12 +460,20 @@ func c16PartA(t *zsim.Tape, cfg *hlib.Config) *hlib.Outcome {
 		sc.Shared = append(sc.Shared, t.Draw(2) == 0)
 	}
 	sc.Victim = c16Victim(t)
-	if n > 0 && t.Draw(4) == 3 {
-		// the victim is one of the polluters again: any program must behave the second time in a
-		// process exactly as it does the first time after a restart
-		again := *sc.History[t.Draw(n)]
-		again.ID = "again:" + again.ID
-		sc.Victim = &again
+	if n > 0 {
+		switch t.Draw(4) {
+		case 3:
+			// the victim is one of the polluters again: any program must behave the second time in a
+			// process exactly as it does the first time after a restart
+			again := *sc.History[t.Draw(n)]
+			again.ID = "again:" + again.ID
+			sc.Victim = &again
+		case 1, 2:
+			// the victim that looks at what one of the polluters touched
+			if rv := c16Related(t, sc.History[t.Draw(n)]); rv != nil {
+				sc.Victim = rv
+			}
+		}
 	}
 	sc.Shared = append(sc.Shared, t.Draw(2) == 0)
 	if cfg.Int("enum", 0) > 0 {
